@@ -25,3 +25,22 @@ add("C04", "exploration",
     "peak wavenumber judged by the dispersion residual at each point's own depth. Held-on-K-executions.",
     "bands whose in-band maximum is <= 0 are not judged (peak undefined); whole-NaN spectra excluded",
     "runtime postcondition contracts + batch-vs-single paired executions", "4/C04")
+add("C12", "exploration",
+    "Seeded spectra with analytic c*f^-4 ranges (both methods must return exactly c) and random spectra (peak oracle), "
+    "all layouts, both conventions, non-default constants, 2D inputs vs their 1D reduction; closed form, log law, "
+    "direction range and convention recomputed independently for every call. Held-on-K-executions.",
+    "mean method judged only where an exact f^-4 range of >= 25 bins below fmax exists",
+    "runtime postcondition monitors with closed-form oracle + metamorphic (scaling, 2D vs 1D, convention) pairs", "4/C12")
+add("C17", "exploration",
+    "Instants drawn as integer microseconds and rendered by the generator in every supported representation and "
+    "container; worker processes run under five local time zones (TZ) so naive/local mix-ups are observable; "
+    "round trips and packed integers judged against calendar fields built by the generator. Held-on-K-executions.",
+    "float epoch inputs exact to 1 microsecond; only packed integers that the documented rule decodes unambiguously",
+    "differential monitoring against generator-built expected instants over seeded inputs x process time zones", "4/C17")
+add("C20", "exploration",
+    "All 36 stencils are enumerated and compared with Lagrange-basis integrals in exact rational arithmetic "
+    "(exhaustive for that clause); integrate() is run on seeded polynomial/random signals over uniform, jittered "
+    "and gapped grids and every single step increment is classified and judged (exact-polynomial / trapezoid / "
+    "either), plus linearity and start value; thorough adds NUMBA_BOUNDSCHECK=1 (numba's bounds sanitizer).",
+    "width of the trapezoid zone after a disturbance is not fixed by the property; fractions.Fraction arithmetic trusted",
+    "per-step trace monitor over executions + exhaustive enumeration of the finite stencil table + bounds-checked JIT", "4/C20")
